@@ -10,11 +10,13 @@
 package rt
 
 import (
+	"os"
 	"runtime"
 	"runtime/debug"
 	"sort"
 	"strconv"
 	"sync"
+	"syscall"
 	"testing/synctest"
 )
 
@@ -153,6 +155,41 @@ type Sim struct {
 
 	Panic   *PanicInfo
 	aborted bool
+
+	// OS-fault seam (calls of the Unix file server into os / syscall): per-mille probability that
+	// a call fails instead of being performed, at most OSMax times; every firing is logged.
+	OSRate int
+	OSMax  int
+	OSLog  []OSFired
+}
+
+// OSFired is one injected operating-system error.
+type OSFired struct {
+	Step  int
+	Name  string
+	Errno syscall.Errno
+}
+
+var osErrnos = []syscall.Errno{syscall.EIO, syscall.ENOSPC, syscall.EACCES, syscall.EMFILE, syscall.ENOENT, syscall.EINTR, syscall.EROFS, syscall.ENOMEM}
+
+// OSFault is called by the instrumented Ufs before every os / syscall call; a non-nil result is
+// returned to the library instead of performing the call.
+//
+//go:norace
+func OSFault(site int, name string) error {
+	s := S
+	if s == nil || s.OSRate <= 0 || len(s.OSLog) >= s.OSMax {
+		return nil
+	}
+	if s.Choose(1000) >= s.OSRate {
+		return nil
+	}
+	errno := osErrnos[s.Choose(len(osErrnos))]
+	s.OSLog = append(s.OSLog, OSFired{s.Steps, name, errno})
+	if len(name) > 8 && name[:8] == "syscall." {
+		return errno
+	}
+	return &os.PathError{Op: name, Path: "(injected)", Err: errno}
 }
 
 // S is the simulation of the current bubble. nil outside simulation: the
